@@ -169,6 +169,36 @@ loop:
 	return lhs, nil
 }
 
+func parsePostfixOperators(lex *lexer.PeekingLexer, lhs Expression) (Expression, error) {
+	for {
+		tok := lex.Peek()
+		if tok.EOF() {
+			return lhs, nil
+		}
+
+		var err error
+		switch tok.Type {
+		case TokenTypeDot:
+			lex.Next()
+			var rhs Expression
+			rhs, err = parseExprWithPrecedence(lex, operatorInfo[TokenTypeDot].Precedence+1)
+			if err != nil {
+				return nil, err
+			}
+			lhs, err = combineOperands(lhs, tok, rhs)
+		case TokenTypeOpenParen:
+			lhs, err = parseCall(lex, lhs)
+		case TokenTypeOpenBracket:
+			lhs, err = parseSubscript(lex, lhs)
+		default:
+			return lhs, nil
+		}
+		if err != nil {
+			return nil, err
+		}
+	}
+}
+
 func combineOperands(lhs Expression, tok *lexer.Token, rhs Expression) (Expression, error) {
 	switch tok.Type {
 	case TokenTypeAs:
@@ -236,6 +266,12 @@ func parseAtom(lex *lexer.PeekingLexer) (Expression, error) {
 	case TokenTypeMinus:
 		// unary minus
 		expr, err := parseAtom(lex)
+		if err != nil {
+			return nil, err
+		}
+
+		// member access, subscripts and calls bind tighter than the sign: -a.b is -(a.b)
+		expr, err = parsePostfixOperators(lex, expr)
 		if err != nil {
 			return nil, err
 		}
